@@ -286,7 +286,21 @@ def run_shard(spec, res):
             if via != 'class':
                 via += ':' + rng.choice(VIAS)
             check(ld, lens, p, via, res)
-        res.sample({'lens': lens, 'params': p})
+        # long streams (several hundred examples, lengths up to 300)
+        for L in (257, 300, 1000):
+            for _ in range(spec.get('nlong', 6)):
+                lens = [rng.choice((1, 2, 3, 5, 8, 13, 40, 300)) for _ in range(L)]
+                p = dict(rng.choice(pts))
+                p['bs'] = rng.choice((2, 4, 16, 300))
+                p['mts'] = rng.choice((None, 64, 1000))
+                p['mb'] = rng.choice((None, 5, 100, 260))
+                p['exp'] = rng.choice((None, 3, 128, 257))
+                via = rng.choice(('class', 'method', 'strkeys'))
+                if via != 'class':
+                    via += ':' + rng.choice(VIAS)
+                check(ld, lens, p, via, res)
+                res.count('long_streams_checked')
+        res.sample({'lens': lens[:12], 'params': p})
 
 
 def finalize(res, tier):
